@@ -861,6 +861,11 @@ def C12(c):
     c.exhaustive_scopes.append(f"all multisets of 1..{c.n(6,7)} values from 0..{c.n(4,5)-1} x d in (1,2,3,n,unbounded)")
     rnd = [mk(gen.rand_vals(rng, rng.randint(1, c.n(12, 14))), rng.choice([1, 1, 2, 3, None, None, rng.randint(1, 14)])) for _ in range(c.n(600, 6000))]
     c.corr("random", rnd, combos_of(["list", "dict_str"], [PT]), judge=judge)
+    # a binding cardinality bound on 7-9 items, in bulk: a search that prunes or memoises on the sums alone, forgetting the counts, loses
+    # the constrained optimum on about one such input in a thousand
+    tight = [mk([rng.choice([0, rng.randint(1, 30), rng.randint(1, 30), rng.randint(1, 9)]) for _ in range(rng.randint(7, 9))], rng.choice([1, 1, 2]))
+             for _ in range(c.n(4000, 30000))]
+    c.corr("binding-bound-7-9-items", tight, combos_of(["list"], [PT]), judge=judge)
 
 
 # ------------------------------------------------------------------------------------------------ C20
@@ -2053,12 +2058,12 @@ def C19(c):
                 add(vals, k, "default", "default", fmt, "numbins")
             for tl in (0, -1, -0.5, 0.0):
                 add(vals, 2, tl, "default", fmt, "time_limit")
-            for pd in (0, -1, -5, 1.5, 2.0, 0.5, 0.0):
+            for pd in (0, -1, -5, 1.5, 2.0, 0.5, 0.0, float("inf"), float("-inf"), float("nan"), np.inf, 1e18):
                 add(vals, 2, "default", pd, fmt, "partition_difference")
             for pos in range(len(vals)):
                 neg = list(vals); neg[pos] = -1 - neg[pos]
                 add(neg, 2, "default", "default", fmt, "negative item")
-    c.exhaustive_scopes.append("cbldm: every single invalid argument (numbins in 0,1,3,4,7; time_limit in 0,-1,-0.5,0.0; partition_difference in 0,-1,-5,1.5,2.0,0.5,0.0; "
+    c.exhaustive_scopes.append("cbldm: every single invalid argument (numbins in 0,1,3,4,7; time_limit in 0,-1,-0.5,0.0; partition_difference in 0,-1,-5,1.5,2.0,0.5,0.0,inf,-inf,nan,1e18; "
                                "a negative item at every position) x list/dict/names+valueof, plus valid argument combinations")
     c.direct("cbldm-arguments", triples, nontrivial=lambda label, ans: label["invalid"] is not None)
     for line, thunk, label in triples:
